@@ -10,6 +10,11 @@ The scan of `validate_index` runs along the very order in which the BFS of `writ
 and its `next` is the writer's `child_begin` counter (`writeLoop_scan`: both start at 1, both advance by
 the number of children of each node record and skip leaf records).  The syllable fields inside a child
 range are those of the node's sorted children (non-zero), the node's leaf being the first record.
+
+Since the repair of C13's finding F47 `validate_index` also requires the syllable field of every node record
+other than the root to be a value `Syllable::try_from` accepts (`TrieValidate.sylsOk`).  The syllable field of a
+node record is the syllable of the forest node it was written for (`writeLoop_syls`), a `Syllable` value handed to
+`insert`, hence a valid code by `Forest.WF` / `Item.WF`; leaf records and the root carry 0.
 -/
 namespace Chewing.TrieCodec
 open Chewing Chewing.Der Chewing.TrieValidate
@@ -228,13 +233,71 @@ theorem writeLoop_scan (fuel : Nat) :
           rw [e1]
           exact scan_leaf_intro (by omega) (by omega) (by simpa using hscan)
 
+/-- what `write` appends, syllable fields: 0 (leaf records, the root) or the valid code of a forest node -/
+theorem writeLoop_syls (fuel : Nat) :
+    ∀ (q : List Item) (cb : Nat) (dict : List Rec) (data : Bytes) (recs' : List Rec) (data' : Bytes),
+      writeLoop fuel q cb dict data = some (recs', data') →
+      (∀ it ∈ q, it.Pre ∧ (it.syl ≠ 0 → validCode it.syl = true)) →
+      ∃ r2, recs' = dict ++ r2 ∧ ∀ r ∈ r2, r.2.2 ≠ 0 → validCode r.2.2 = true := by
+  induction fuel with
+  | zero =>
+    intro q cb dict data recs' data' h _
+    cases q with
+    | nil =>
+      rw [writeLoop_nil] at h; cases h
+      exact ⟨[], by simp, by simp⟩
+    | cons it q => simp [writeLoop] at h
+  | succ fuel ih =>
+    intro q cb dict data recs' data' h hpre
+    cases q with
+    | nil =>
+      rw [writeLoop_nil] at h; cases h
+      exact ⟨[], by simp, by simp⟩
+    | cons it q =>
+      cases it with
+      | node s l sub =>
+        simp only [writeLoop] at h
+        split at h
+        · cases h
+        · have hnode := hpre (Item.node s l sub) (by simp)
+          have hpre' : ∀ it ∈ q ++ kidsOf l sub, it.Pre ∧ (it.syl ≠ 0 → validCode it.syl = true) := by
+            intro it hit
+            rw [List.mem_append] at hit
+            rcases hit with hit | hit
+            · exact hpre it (by simp [hit])
+            · exact ⟨(hnode.1.kids it hit).pre, (hnode.1.kids it hit).syl_valid⟩
+          obtain ⟨r2, hr2, hr2r⟩ := ih _ _ _ _ _ _ h hpre'
+          refine ⟨(cb % 4294967296, (kidsOf l sub).length, s) :: r2, by simp [hr2], ?_⟩
+          intro r hr
+          simp only [List.mem_cons] at hr
+          rcases hr with rfl | hr
+          · exact hnode.2
+          · exact hr2r r hr
+      | leaf ps =>
+        simp only [writeLoop] at h
+        split at h
+        · cases h
+        · obtain ⟨r2, hr2, hr2r⟩ := ih _ _ _ _ _ _ h (fun it hit => hpre it (by simp [hit]))
+          refine ⟨(data.length % 4294967296, (encPhrases (sortLeaf ps)).length, 0) :: r2, by simp [hr2], ?_⟩
+          intro r hr
+          simp only [List.mem_cons] at hr
+          rcases hr with rfl | hr
+          · exact fun hz => absurd rfl hz
+          · exact hr2r r hr
+
 /-- **validate_write**, buffers form: the index of `write` passes `validate_index` -/
 theorem validate_buffers (b : Builder) (hb : b.WF) (recs : List Rec) (data : Bytes)
     (h : b.buffers = some (recs, data)) (hr : recs.length < 4294967296) (hd : data.length < 4294967296) :
     validate recs data.length = true := by
   have := writeLoop_scan b.root.size [b.root] 1 [] [] recs data h rfl
     (Or.inr ⟨rfl, b.leaf, b.kids, rfl, root_pre b hb⟩) hr hd
-  simpa [validate] using this
+  obtain ⟨r2, hr2, hsyl⟩ := writeLoop_syls b.root.size [b.root] 1 [] [] recs data h
+    (by intro it hit; simp only [List.mem_singleton] at hit; subst hit
+        exact ⟨root_pre b hb, fun hz => absurd rfl hz⟩)
+  refine validate_intro (by simpa using this) ?_
+  intro r hr
+  rw [hr2, List.nil_append] at hr
+  exact hsyl r (List.mem_of_mem_drop hr)
 
 /-- the reader's record view of a flattened index is the record list -/
 theorem parseRecs_flatMap (recs : List Rec) (h : ∀ r ∈ recs, r.1 < 4294967296 ∧ r.2.1 < 65536 ∧ r.2.2 < 65536) :
